@@ -23,6 +23,19 @@
 (*   Clean    one whole cleanup() run (CleanF then CleanB back to back): what a sequential        *)
 (*            driver can call; the exhaustive configurations use the two halves separately.       *)
 (*   MUnban / MUnbl / Blk / BlkP / Wl / UnWl   operator actions (legitimate, not violations).     *)
+(*            Black- and whitelist entries come in the forms "ip" (the exact address), "net" (a    *)
+(*            CIDR range containing it) and "other" (a CIDR range not containing it: no effect     *)
+(*            on this address, a stateless action).  findInList looks the exact key up first and   *)
+(*            only then scans the ranges; as the code stands an EXPIRED exact entry therefore       *)
+(*            answers "allowed" although a live range covers the address (deviation                 *)
+(*            expiredShadows).  The spawned removal is keyed by the queried address: it can only   *)
+(*            remove the exact entry.                                                               *)
+(*   Reload   a fresh IPManager over the same storage (restart).  Every change of the lists is      *)
+(*            written through to storage and temporary entries are stored with their remaining      *)
+(*            lifetime as TTL, so storage = memory minus expired entries: a reload keeps every       *)
+(*            live entry of either form and drops the expired ones.                                  *)
+(*   IdleFor / Flood   rate-limiter histories: Idle lets a whole refill period (burst/rate) pass in     *)
+(*            one step, Flood is 2*Burst+2 AllowIP calls back to back.                               *)
 (*   Tick     time passes.                                                                        *)
 (*                                                                                            *)
 (* Time.  One tick is the unit; the durations are Win, Ban, BlDur ticks MINUS HALF A TICK       *)
@@ -41,14 +54,15 @@
 (*             handshake RETURNS having seen >= Threshold failures inside the window (>= PermAt   *)
 (*             in total); cleared only by an operator's manual unban                              *)
 (*   allow[ip] what the statement permits: a refusal needs a ban whose count reached a threshold  *)
-(*   blob[ip]  the operator's latest blacklist order                                              *)
+(*   blob[ip]  the operator's latest blacklist order, per entry form                               *)
 (*   adm[ip]   clock values of admitted anonymous registrations                                   *)
 (* Violations are accumulated in `viol`, deviations of the code in `dev`; the as-is               *)
 (* configurations (Fixed = {}) check "violation => a listed deviation happened", the repaired     *)
-(* design (Fixed = {"unban", "unbl", "order"}) checks viol = {} and dev = {} outright:            *)
+(* design (Fixed = {"unban", "unbl", "order", "shadow"}) checks viol = {} and dev = {} outright:  *)
 (*   "unban"  the spawned unban re-checks under the lock and removes only an expired entry        *)
 (*   "unbl"   the same for the spawned blacklist removal                                          *)
 (*   "order"  banIP keeps an existing permanent ban when asked to record a temporary one          *)
+(*   "shadow" IsAllowed skips expired entries: a live entry of the other form still refuses        *)
 (* BruteForce_asis_strict.cfg (expected to fail) makes TLC exhibit the lifted ban.                *)
 EXTENDS Naturals, Sequences, FiniteSets, TLC, Json
 
@@ -63,7 +77,7 @@ CONSTANTS IPs,        \* addresses (their state is disjoint in the code: separat
           MaxClock, MaxTotal, MaxPend, MaxAdm,    \* bounds of the explored state graph
           Acts,       \* action alphabet of this configuration
           Atomic,     \* TRUE: a handshake runs to completion before anything else happens
-          Fixed,      \* subset of {"unban", "unbl", "order"}: repairs present in the code
+          Fixed,      \* subset of {"unban", "unbl", "order", "shadow"}: repairs present in the code
           EmitActs,   \* behaviour generation: print the history after every step whose action is in
                       \* this set ("dev": every step in which a deviation or a violation is recorded;
                       \* "end": every step that brings the history to length MaxHist); {} = no output
@@ -72,7 +86,7 @@ CONSTANTS IPs,        \* addresses (their state is disjoint in the code: separat
 VARIABLES clock,
           fails, total,          \* FailureRecord: Failures (clock values, pruned lazily), TotalCount
           ban, pendUnban,        \* bannedIPs[ip]; number of spawned, not yet run `go UnbanIP(ip)`
-          bl, wl, pendUnbl,      \* blacklist[ip], whitelist[ip]; spawned `go RemoveFromBlacklist(ip)`
+          bl, wl, pendUnbl,      \* black-/whitelist entries covering ip, per form; spawned lazy removals
           bucket,                \* token bucket of anonymous registrations
           pc, hs,                \* handshake processes (goroutines inside HandleHandshake)
           pf, ptot, oblig, allow, blob, adm, viol, dev,   \* ghosts
@@ -96,6 +110,10 @@ Stronger(a, b) == IF a.k = "perm" \/ b.k = "perm" THEN Perm
                   ELSE IF b.k = "none" THEN a
                   ELSE Temp(Max2(a.until, b.until))
 
+Forms     == {"ip", "net"}              \* entry forms that cover the address ("other" does not)
+NoEntries == [ip |-> None, net |-> None]
+NoWl      == [ip |-> FALSE, net |-> FALSE]
+
 InWin(s) == SelectSeq(s, LAMBDA t : clock - t < Win)       \* cleanupOldFailures
 
 NoBucket == [has |-> FALSE, tok |-> 0, last |-> 0]
@@ -109,11 +127,11 @@ Idle == [ip |-> "", kind |-> "", dec |-> "none", pcnt |-> 0, ptot |-> 0, rc |-> 
 Init == /\ clock = 0
         /\ fails = [i \in IPs |-> <<>>] /\ total = [i \in IPs |-> 0]
         /\ ban = [i \in IPs |-> None] /\ pendUnban = [i \in IPs |-> 0]
-        /\ bl = [i \in IPs |-> None] /\ wl = [i \in IPs |-> FALSE] /\ pendUnbl = [i \in IPs |-> 0]
+        /\ bl = [i \in IPs |-> NoEntries] /\ wl = [i \in IPs |-> NoWl] /\ pendUnbl = [i \in IPs |-> 0]
         /\ bucket = [i \in IPs |-> NoBucket]
         /\ pc = [p \in Procs |-> "idle"] /\ hs = [p \in Procs |-> Idle] 
         /\ pf = [i \in IPs |-> <<>>] /\ ptot = [i \in IPs |-> 0]
-        /\ oblig = [i \in IPs |-> None] /\ allow = [i \in IPs |-> None] /\ blob = [i \in IPs |-> None]
+        /\ oblig = [i \in IPs |-> None] /\ allow = [i \in IPs |-> None] /\ blob = [i \in IPs |-> NoEntries]
         /\ adm = [i \in IPs |-> <<>>] /\ viol = {} /\ dev = {}
         /\ hist = <<>>
 
@@ -134,15 +152,26 @@ Quiet == \A p \in Procs : pc[p] = "idle"
 Free  == Atomic => Quiet          \* guard of everything that is not the continuation of a handshake
 
 \* ---- the two look-ups of the gates (shared by HsGate and Query) ----------------------------
-BlRefuses(i)  == ~wl[i] /\ Live(bl[i])
-BlSpawns(i)   == ~wl[i] /\ Expired(bl[i])          \* go m.RemoveFromBlacklist(ip)
+White(i) == wl[i].ip \/ wl[i].net
+\* findInList: the exact key first, then the ranges; the repaired IsAllowed ignores expired entries
+Found(i) == IF "shadow" \in Fixed
+            THEN (IF Live(bl[i].ip) THEN "ip" ELSE IF Live(bl[i].net) THEN "net" ELSE "none")
+            ELSE (IF bl[i].ip.k # "none" THEN "ip" ELSE IF bl[i].net.k # "none" THEN "net" ELSE "none")
+BlRefuses(i)  == ~White(i) /\ Found(i) # "none" /\ Live(bl[i][Found(i)])
+\* go m.removeExpiredFromBlacklist(ip): as is for whatever expired entry was found (a no-op for a range),
+\* repaired for an expired exact entry
+BlSpawns(i)   == ~White(i) /\ IF "shadow" \in Fixed THEN Expired(bl[i].ip)
+                              ELSE Found(i) # "none" /\ Expired(bl[i][Found(i)])
+\* deviation: "allowed" because the entry found is expired, although a live entry covers the address
+Shadowed(i)   == ~White(i) /\ ~BlRefuses(i) /\ \E f \in Forms : Live(bl[i][f])
+DevShadow(i)  == IF Shadowed(i) THEN {"expiredShadows"} ELSE {}
 BanRefuses(i) == Live(ban[i])
 BanSpawns(i)  == Expired(ban[i])                   \* go p.UnbanIP(ip)
 
 \* what an observed pair of answers means for the property (blAns/banAns: "yes" refused, "no" not
 \* refused, "-" not asked)
 Judge(i, blAns, banAns) ==
-     (IF blAns = "no" /\ ~wl[i] /\ Live(blob[i]) THEN {"bl"} ELSE {})
+     (IF blAns = "no" /\ ~White(i) /\ (\E f \in Forms : Live(blob[i][f])) THEN {"bl"} ELSE {})
 \cup (IF banAns = "no" /\ Live(oblig[i]) THEN {"ban"} ELSE {})
 \cup (IF banAns = "yes" /\ ~Live(allow[i]) THEN {"spurious"} ELSE {})
 
@@ -164,7 +193,8 @@ HsGate(p, i, kind) ==
                 /\ hs' = [hs EXCEPT ![p] = [Idle EXCEPT !.ip = i, !.kind = kind]]
            ELSE pc' = pc /\ hs' = hs
         /\ Log([a |-> "Hs", p |-> p, ip |-> i, kind |-> kind, res |-> res])
-  /\ UNCHANGED <<clock, fails, total, ban, bl, wl, pf, ptot, oblig, allow, blob, dev>>
+  /\ dev' = dev \cup DevShadow(i)
+  /\ UNCHANGED <<clock, fails, total, ban, bl, wl, pf, ptot, oblig, allow, blob>>
 
 \* what the statement demands after a failing handshake that saw cnt failures in the window / tot in total
 Demand(cnt, tot, rc) == IF tot >= PermAt THEN Perm ELSE IF cnt >= Threshold THEN Temp(rc + Ban) ELSE None
@@ -220,7 +250,8 @@ Query(i) ==
   /\ pendUnban' = [pendUnban EXCEPT ![i] = @ + (IF BanSpawns(i) THEN 1 ELSE 0)]
   /\ viol' = viol \cup Judge(i, IF BlRefuses(i) THEN "yes" ELSE "no", IF BanRefuses(i) THEN "yes" ELSE "no")
   /\ Log([a |-> "Query", ip |-> i, bl |-> BlRefuses(i), ban |-> BanRefuses(i)])
-  /\ UNCHANGED <<clock, fails, total, ban, bl, wl, bucket, pc, hs, pf, ptot, oblig, allow, blob, adm, dev>>
+  /\ dev' = dev \cup DevShadow(i)
+  /\ UNCHANGED <<clock, fails, total, ban, bl, wl, bucket, pc, hs, pf, ptot, oblig, allow, blob, adm>>
 
 \* ---- the asynchronous removals -------------------------------------------------------------
 AsyncUnban(i) ==
@@ -240,11 +271,11 @@ AsyncUnbl(i) ==
   /\ "Unbl" \in Acts /\ Free /\ pendUnbl[i] > 0
   /\ pendUnbl' = [pendUnbl EXCEPT ![i] = @ - 1]
   /\ IF "unbl" \in Fixed
-     THEN /\ bl' = IF Expired(bl[i]) THEN [bl EXCEPT ![i] = None] ELSE bl
+     THEN /\ bl' = IF Expired(bl[i].ip) THEN [bl EXCEPT ![i].ip = None] ELSE bl
           /\ dev' = dev
-     ELSE /\ bl' = [bl EXCEPT ![i] = None]
-          /\ dev' = IF Live(bl[i]) THEN dev \cup {"unblLive"} ELSE dev
-  /\ Log([a |-> "Unbl", ip |-> i, live |-> Live(bl[i])])
+     ELSE /\ bl' = [bl EXCEPT ![i].ip = None]
+          /\ dev' = IF Live(bl[i].ip) THEN dev \cup {"unblLive"} ELSE dev
+  /\ Log([a |-> "Unbl", ip |-> i, live |-> Live(bl[i].ip)])
   /\ UNCHANGED <<clock, fails, total, ban, pendUnban, wl, bucket, pc, hs, pf, ptot, oblig, allow, blob, adm, viol>>
 
 \* ---- periodic clean-ups ---------------------------------------------------------------------
@@ -273,7 +304,7 @@ Clean ==    \* one complete cleanup() run: both sections back to back (what the 
 
 CleanL ==   \* IPManager.cleanup()
   /\ "CleanL" \in Acts /\ Free
-  /\ bl' = [i \in IPs |-> IF Expired(bl[i]) THEN None ELSE bl[i]]
+  /\ bl' = [i \in IPs |-> [f \in Forms |-> IF Expired(bl[i][f]) THEN None ELSE bl[i][f]]]
   /\ Log([a |-> "CleanL"])
   /\ UNCHANGED <<clock, fails, total, ban, pendUnban, wl, pendUnbl, bucket, pc, hs, pf, ptot, oblig, allow, blob, adm, viol, dev>>
 
@@ -284,24 +315,56 @@ MUnban(i) ==   \* UnbanIP called by an operator: lifts the ban and, legitimately
   /\ Log([a |-> "MUnban", ip |-> i])
   /\ UNCHANGED <<clock, fails, total, pendUnban, bl, wl, pendUnbl, bucket, pc, hs, pf, ptot, allow, blob, adm, viol, dev>>
 
-Blk(i, kind) ==   \* AddToBlacklist(ip, duration | 0): the latest order replaces the previous one
+Blk(i, kind, f) ==   \* AddToBlacklist(entry, duration | 0): the latest order for an entry replaces the previous one
   /\ kind \in Acts /\ Free
   /\ LET e == IF kind = "BlkP" THEN Perm ELSE Temp(clock + BlDur)
-     IN bl' = [bl EXCEPT ![i] = e] /\ blob' = [blob EXCEPT ![i] = e]
-  /\ Log([a |-> kind, ip |-> i])
+     IN bl' = [bl EXCEPT ![i][f] = e] /\ blob' = [blob EXCEPT ![i][f] = e]
+  /\ Log([a |-> kind, ip |-> i, form |-> f])
   /\ UNCHANGED <<clock, fails, total, ban, pendUnban, wl, pendUnbl, bucket, pc, hs, pf, ptot, oblig, allow, adm, viol, dev>>
 
-MUnbl(i) ==   \* RemoveFromBlacklist called by an operator
-  /\ "MUnbl" \in Acts /\ Free /\ bl[i].k # "none"
-  /\ bl' = [bl EXCEPT ![i] = None] /\ blob' = [blob EXCEPT ![i] = None]
-  /\ Log([a |-> "MUnbl", ip |-> i])
+MUnbl(i, f) ==   \* RemoveFromBlacklist(entry) called by an operator
+  /\ "MUnbl" \in Acts /\ Free /\ bl[i][f].k # "none"
+  /\ bl' = [bl EXCEPT ![i][f] = None] /\ blob' = [blob EXCEPT ![i][f] = None]
+  /\ Log([a |-> "MUnbl", ip |-> i, form |-> f])
   /\ UNCHANGED <<clock, fails, total, ban, pendUnban, wl, pendUnbl, bucket, pc, hs, pf, ptot, oblig, allow, adm, viol, dev>>
 
-SetWl(i, on) ==
-  /\ (IF on THEN "Wl" ELSE "UnWl") \in Acts /\ Free /\ wl[i] # on
-  /\ wl' = [wl EXCEPT ![i] = on]
-  /\ Log([a |-> IF on THEN "Wl" ELSE "UnWl", ip |-> i])
+SetWl(i, on, f) ==
+  /\ (IF on THEN "Wl" ELSE "UnWl") \in Acts /\ Free /\ wl[i][f] # on
+  /\ wl' = [wl EXCEPT ![i][f] = on]
+  /\ Log([a |-> IF on THEN "Wl" ELSE "UnWl", ip |-> i, form |-> f])
   /\ UNCHANGED <<clock, fails, total, ban, pendUnban, bl, pendUnbl, bucket, pc, hs, pf, ptot, oblig, allow, blob, adm, viol, dev>>
+
+Other(i, kind) ==   \* an entry that does not cover the address (range elsewhere): nothing changes for it
+  /\ kind \in {"BlkO", "WlO"} /\ kind \in Acts /\ Free
+  /\ Log([a |-> IF kind = "BlkO" THEN "Blk" ELSE "Wl", ip |-> i, form |-> "other"])
+  /\ UNCHANGED <<clock, fails, total, ban, pendUnban, bl, wl, pendUnbl, bucket, pc, hs, pf, ptot, oblig, allow, blob, adm, viol, dev>>
+
+Reload ==   \* restart: a fresh IPManager loads the lists from storage (= memory minus expired entries)
+  /\ "Reload" \in Acts /\ Free /\ \A i \in IPs : pendUnbl[i] = 0
+  /\ bl' = [i \in IPs |-> [f \in Forms |-> IF Live(bl[i][f]) THEN bl[i][f] ELSE None]]
+  /\ Log([a |-> "Reload"])
+  /\ UNCHANGED <<clock, fails, total, ban, pendUnban, wl, pendUnbl, bucket, pc, hs, pf, ptot, oblig, allow, blob, adm, viol, dev>>
+
+\* ---- rate-limiter histories ------------------------------------------------------------------
+IdleTicks == (Burst * 1000 + Refill - 1) \div Refill        \* a whole refill period: burst / rate
+FloodN    == 2 * Burst + 2
+
+IdleFor ==
+  /\ "Idle" \in Acts /\ Free /\ clock + IdleTicks <= MaxClock
+  /\ clock' = clock + IdleTicks
+  /\ pf' = [i \in IPs |-> SelectSeq(pf[i], LAMBDA t : clock + IdleTicks - t < Win)]
+  /\ Log([a |-> "Idle", n |-> IdleTicks])
+  /\ UNCHANGED <<fails, total, ban, pendUnban, bl, wl, pendUnbl, bucket, pc, hs, ptot, oblig, allow, blob, adm, viol, dev>>
+
+Flood(i) ==   \* FloodN AllowIP calls back to back (straight at the limiter)
+  /\ "Flood" \in Acts /\ Free
+  /\ LET b   == bucket[i]
+         cur == IF b.has THEN Min2(b.tok + (clock - b.last) * Refill, Burst * 1000) ELSE Burst * 1000
+         k   == Min2(cur \div 1000, FloodN)
+     IN /\ bucket' = [bucket EXCEPT ![i] = [has |-> TRUE, tok |-> cur - k * 1000, last |-> clock]]
+        /\ adm' = [adm EXCEPT ![i] = @ \o [x \in 1..k |-> clock]]
+        /\ Log([a |-> "Flood", ip |-> i, n |-> FloodN, adm |-> k])
+  /\ UNCHANGED <<clock, fails, total, ban, pendUnban, bl, wl, pendUnbl, pc, hs, pf, ptot, oblig, allow, blob, viol, dev>>
 
 Tick ==
   /\ "Tick" \in Acts /\ Free /\ clock < MaxClock
@@ -312,9 +375,11 @@ Tick ==
 
 Step == \/ \E p \in Procs : \/ \E i \in IPs, k \in {"Bad", "Good", "Anon"} : HsGate(p, i, k)
                             \/ HsCred(p) \/ HsBan(p)
-        \/ \E i \in IPs : \/ Query(i) \/ AsyncUnban(i) \/ AsyncUnbl(i) \/ MUnban(i) \/ MUnbl(i)
-                          \/ Blk(i, "Blk") \/ Blk(i, "BlkP") \/ SetWl(i, TRUE) \/ SetWl(i, FALSE)
-        \/ CleanF \/ CleanB \/ Clean \/ CleanL \/ Tick
+        \/ \E i \in IPs : \/ Query(i) \/ AsyncUnban(i) \/ AsyncUnbl(i) \/ MUnban(i) \/ Flood(i)
+                          \/ Other(i, "BlkO") \/ Other(i, "WlO")
+                          \/ \E f \in Forms : \/ Blk(i, "Blk", f) \/ Blk(i, "BlkP", f) \/ MUnbl(i, f)
+                                               \/ SetWl(i, TRUE, f) \/ SetWl(i, FALSE, f)
+        \/ CleanF \/ CleanB \/ Clean \/ CleanL \/ Reload \/ Tick \/ IdleFor
 Next == Len(hist) < MaxHist /\ Step /\ Out
 Spec == Init /\ [][Next]_vars
 
@@ -324,7 +389,7 @@ Bounded == \A i \in IPs : /\ pendUnban[i] <= MaxPend /\ pendUnbl[i] <= MaxPend
 
 \* ---- properties (C18) -----------------------------------------------------------------------
 TypeOK == /\ clock \in 0..MaxClock
-          /\ \A i \in IPs : /\ ban[i].k \in {"none", "temp", "perm"} /\ bl[i].k \in {"none", "temp", "perm"}
+          /\ \A i \in IPs : /\ ban[i].k \in {"none", "temp", "perm"} /\ \A f \in Forms : bl[i][f].k \in {"none", "temp", "perm"}
                             /\ total[i] \in 0..MaxTotal /\ Len(fails[i]) <= total[i]
                             /\ bucket[i].tok \in 0..(Burst * 1000)
           /\ \A p \in Procs : pc[p] \in {"idle", "cred", "ban"}
@@ -346,6 +411,6 @@ PermKept == \A i \in IPs : (oblig[i].k = "perm" /\ ban[i].k # "perm") => dev # {
 
 \* as-is configurations: a violation is excused only by a listed deviation of the code
 BanHoldsOrKnown       == BanHolds \/ dev \cap {"unbanLive", "tempOverPerm"} # {}
-BlacklistHoldsOrKnown == BlacklistHolds \/ "unblLive" \in dev
+BlacklistHoldsOrKnown == BlacklistHolds \/ dev \cap {"unblLive", "expiredShadows"} # {}
 NoDeviation           == dev = {}
 =============================================================================
